@@ -1,4 +1,5 @@
 //! Independent reference implementations, written from the standards' text.
+pub mod der;
 pub mod ec;
 pub mod field;
 pub mod sm2;
@@ -16,6 +17,8 @@ pub fn self_test_all() -> Result<usize, String> {
     n += 9;
     sm2::self_test()?;
     n += 9;
+    der::self_test()?;
+    n += 12;
     Ok(n)
 }
 
@@ -27,6 +30,9 @@ pub fn self_test_for(prop: &str) -> Result<(), String> {
     }
     if matches!(prop, "C03" | "C04" | "C05" | "C06" | "C11" | "C14" | "C15" | "C19" | "C20") {
         sm2::self_test()?;
+    }
+    if matches!(prop, "C19" | "C20") {
+        der::self_test()?;
     }
     if matches!(prop, "C08" | "C18" | "C20") {
         zuc::self_test()?;
